@@ -188,7 +188,7 @@ class IsNullSpec(OpExecSpec):
         return inst["which"]
 
     def shapes(self, tier, inst):
-        return [0, 3, 9] if tier == "quick" else [0, 1, 3, 8, 9, 17]
+        return [0, 3, 9] if tier == "quick" else [0, 1, 3, 8, 9]      # 17 rows exceed the path cap
 
     def sym_inputs(self, inst, shape):
         return {"present": [sym("u8", f"p{i}") for i in range(nbytes(shape))]}, []
